@@ -11,14 +11,14 @@ ENV = "GOFLAGS=-mod=mod GOPROXY=off GOSUMDB=off GOTOOLCHAIN=local PATH=/opt/veri
 # id -> (technique, level text, design ref, level note)
 CHECKS = {
  "C18": ("SSA must-pass-through and error-discipline analysis of main.go and tree.Compile (go/ssa) with flow-sensitive value tracking, flag-to-parameter wiring and destination value shapes by resolved objects; abstract evaluation of main by the Go-subset interpreter on modelled command lines with the flag package, the files, the front end and Compile as recording natives that fail on demand",
-         "Decides a structural condition that is necessary and, for the error sources that exist in main.go, sufficient: every non-nil error on the input→parse→compile→output path reaches a non-zero exit on every CFG path; a nil error is only returned after printer.Fprint(out) succeeded; flags reach the parameter of the same meaning; the opened files are the grammar argument and -output or <grammar>.go. R-cli-semantics additionally evaluates main on 14 command lines x 6 injected failures (84 evaluations): exit status 0 exactly when Compile was given the requested destination and returned nil; source, destination (create+truncate), tree.New arguments and Strict as the command line says. 'other': static path properties of the CLI source plus bounded evaluation on a model environment, not runs of the binary.",
+         "Decides a structural condition that is necessary and, for the error sources that exist in main.go, sufficient: every non-nil error on the input→parse→compile→output path reaches a non-zero exit on every CFG path; a nil error is only returned after printer.Fprint(out) succeeded; flags reach the parameter of the same meaning; the opened files are the grammar argument and -output or <grammar>.go. R-cli-semantics additionally evaluates main on 14 command lines x up to 8 injected failures (success, syntax error, generation failure, read failure, unopenable grammar, unopenable destination, no file writable, moving a file fails), following renames and removals: exit status 0 exactly when the text Compile wrote is at the requested destination when main ends and Compile returned nil; source, destination (create+truncate), tree.New arguments and Strict as the command line says. 'other': static path properties of the CLI source plus bounded evaluation on a model environment, not runs of the binary.",
          "DESIGN.md §4 C18",
          "Trusts go/ssa's CFG of main.go; assumes os.Exit(≠0)/log.Fatal/panic terminate with non-zero status and that bytes.Buffer writes cannot fail; does not cover OS behaviour after Fprint returned nil."),
  "C16": ("abstract evaluation of set/set.go's source by a Go-subset interpreter on every insertion history of bounded length over a small universe, made representative by a structural order-invariance rule on the typed syntax (code points are only compared, copied and stepped by one); path-sensitive nil-guard analysis of the two sentinel links and pointer-origin (freshness) analysis of every store, on go/ssa",
-         "Decides, for every history of at most 3 insertions (pairs: at most 2 each) and — by order-invariance — for any code points with the same order/adjacency pattern, that Has, Len, String, Copy, Complement, Union, Intersects and Equal return what the set of integers gives and dereference no nil pointer; and, for sets of any size, that the sentinel links are never dereferenced unguarded and operands are never modified. Not decided: longer histories (induction over the interval list), int32 overflow, inverted ranges.",
+         "Decides, for every history of at most 3 insertions (pairs: at most 2 each) and — by order-invariance — for any code points with the same order/adjacency pattern, that Has, Len, String, Copy, Complement, Union, Intersects and Equal return what the set of integers gives and dereference no nil pointer; and, for sets of any size, that the sentinel links are never dereferenced unguarded and operands are never modified. Inverted ranges, Complement limits below the largest element, full-range intervals and small sets at the int32 limit (Len, Has, String; sized integers wrap in the interpreter) are part of the evaluation; a call that gives no result within 20000 statements is reported as non-termination. Not decided: longer histories (induction over the interval list); negative code points.",
          "DESIGN.md §4 C16",
          "Trusts go/ssa and the interpreter (interp.go); the enumeration is bounded in history length, not in the values."),
- "C09": ("interprocedural mod/ref (write/read set) disjointness of the fork-join closures over go/ssa with a field-based location abstraction; must-pass-through join check; global-store and nondeterminism-source search over the reachable call graph",
+ "C09": ("interprocedural mod/ref (write/read set) disjointness of the fork-join closures over go/ssa with a field-based location abstraction; must-pass-through join check; global-store and nondeterminism-source search over the reachable call graph; evaluation of the emitter under five spellings of the program name (R-generator-line)",
          "Decides that the two analysis goroutines share no written location (sound under the over-approximating field-based abstraction), that the spawner joins before touching their results, that no package-level state is written at run time and that no source of run-to-run variation (map iteration, select, clock, randomness, environment, pointer formatting) is reachable from Compile, the builder API or main. These are the structural conditions that make generation a pure function; byte-identity itself is not observed.",
          "DESIGN.md §4 C09",
          "Trusts go/ssa and the library effect table (effects.go); assumes text/template, go/parser and go/printer are deterministic; object-insensitive: may over-report, cannot under-report for the stated obligations."),
@@ -66,7 +66,7 @@ CHECKS = {
          "Decides the inductive in-bounds invariant of position (sentinel re-established by reset and outside the rune range; advances only after a guarded test; otherwise snapshots; buffer indexed only at position/the literal cursor; offsets index runes). -switch configurations are judged by C02.",
          "DESIGN.md §4 C13",
          "Children keep the invariant (induction); termination/stack depth not decided."),
- "C02": ("abstract interpretation of optimizeAlternates (FIRST sets as mathematical sets) and of the emitter on model grammars; E2 typestate analysis of the code emitted for the rewritten tree compared with the PEG oracle evaluated on the unrewritten twin; FIRST/must-consume pairs compared with the PEG definition; the same for -inline against the oracle with single-use rules replaced by their bodies",
+ "C02": ("abstract interpretation of optimizeAlternates (FIRST sets as mathematical sets) and of the emitter on model grammars; E2 typestate analysis of the code emitted for the rewritten tree compared with the PEG oracle evaluated on the unrewritten twin; the (must-consume, FIRST) answer the rewriting pass works with (the last one per node) compared with the PEG definition, recursive and mutually recursive rules included; outcomes compared per class of inputs (what each path learnt about the runes it tested); the same for -inline against the oracle with single-use rules replaced by their bodies",
          "Decides the soundness conditions of both optimisations: a switched choice produces exactly the verdicts, consumed prefixes, tokens and successful attempts of the ordered choice for every hop through which the skip-first-test flag travels (terminals and opaque children with declared FIRST sets), choices with nullable alternatives stay ordered, FIRST sets are never too small, labels agree between the dry and the real pass, inlined uses equal calls and never reach a nil entry. Necessary conditions which, with C01, are sufficient for well-formed grammars; no two parsers are run.",
          "DESIGN.md §4 C02",
          "Assumptions of C01; opaque children with a declared FIRST set fail outside it; set arithmetic is modelled mathematically (setmodel.go), not taken from package set."),
